@@ -4,6 +4,7 @@ literal lists) to the specification `Spec.Taxo.translate`, for every oracle and 
 the accumulation loop of `to_taxa`; the meaning of `is_literal`.
 -/
 import Paroxy.Spec.Taxonomy
+import Paroxy.Spec.TaxonomyDefault
 import Paroxy.Proofs.Bag
 namespace Paroxy.TaxoProofs
 open Paroxy Paroxy.Taxo Paroxy.Spec.Taxo
@@ -408,5 +409,32 @@ theorem Reachable.ok {o : Oracle} {rows : List Row} {st : State} (h : Reachable 
           simp only [accumulate]
           exact ih' _ _ (call_ok o rows st h L).2
       exact this _ _ _ ih
+
+end Paroxy.TaxoProofs
+
+namespace Paroxy.TaxoProofs
+open Paroxy Paroxy.Taxo Paroxy.Spec.Taxo
+
+/-- A table text that passes the executable check `tableOk` is read by `__init__` without error,
+into the rows of its data lines (sorted), all distinct. -/
+theorem parseTsv_of_tableOk (text : Str) (h : tableOk text = true) :
+    ∃ rows, parseTsv text = .ok rows ∧ rows.Perm ((rawLines text).map parseLineD) ∧ rows.Nodup ∧
+      rows ≠ [] := by
+  simp only [tableOk, Bool.and_eq_true, decide_eq_true_eq, Bool.not_eq_true'] at h
+  obtain ⟨⟨hall, hnd⟩, hne⟩ := h
+  have hperm : (sortedLines text).Perm (rawLines text) := List.mergeSort_perm _ _
+  have hall' : (sortedLines text).all okLine = true := by
+    rw [List.all_eq_true] at hall ⊢
+    intro x hx
+    exact hall x (hperm.mem_iff.mp hx)
+  have hp2 := hperm.map parseLineD
+  refine ⟨(sortedLines text).map parseLineD, ?_, hp2, hp2.nodup_iff.mpr hnd, ?_⟩
+  · simp [parseTsv, parseAll, hall']
+  · intro h0
+    have hl := hp2.length_eq
+    rw [h0] at hl
+    simp only [List.length_nil, List.length_map] at hl
+    have : rawLines text = [] := List.eq_nil_of_length_eq_zero hl.symm
+    simp [this] at hne
 
 end Paroxy.TaxoProofs
